@@ -319,4 +319,38 @@ def liqStep (W U : Nat) (m : Market) : LiqOp → Market
 
 def liqRun (W U : Nat) (m : Market) (ops : List LiqOp) : Market := ops.foldl (liqStep W U) m
 
+/-! ### committed histories (on-chain semantics: a failing instruction reverts) -/
+
+/-- tokens that entered / left the market in a history (successful operations only). -/
+structure Flow where
+  inL : Nat := 0
+  inS : Nat := 0
+  outL : Nat := 0
+  outS : Nat := 0
+  deriving Repr, DecidableEq
+
+def Flow.add (a b : Flow) : Flow := ⟨a.inL + b.inL, a.inS + b.inS, a.outL + b.outL, a.outS + b.outS⟩
+
+/-- one COMMITTED operation: the new market and the tokens moved if it succeeds, the unchanged
+market and no flow if it fails (deposits / withdrawals revert on chain — C21; swaps are atomic in
+the model crate itself — C04). -/
+def liqStepA (W U : Nat) (m : Market) : LiqOp → Market × Flow
+  | .deposit d => match deposit W U m d PerpIn.zero with
+    | (m', .ok _) => (m', { inL := d.long, inS := d.short })
+    | (_, .error _) => (m, {})
+  | .withdraw w => match withdraw W U m w PerpIn.zero with
+    | (m', .ok r) => (m', { outL := r.longOut, outS := r.shortOut })
+    | (_, .error _) => (m, {})
+  | .swap q => match swap W U m q with
+    | .ok (m', c) => (m', if q.isInLong then { inL := q.amount, outS := c.tokenOut } else { inS := q.amount, outL := c.tokenOut })
+    | .error _ => (m, {})
+  | .tick s => (m.tick s, {})
+
+def liqRunA (W U : Nat) : Market → List LiqOp → Market × Flow
+  | m, [] => (m, {})
+  | m, op :: ops =>
+    let (m1, f1) := liqStepA W U m op
+    let (m2, f2) := liqRunA W U m1 ops
+    (m2, f1.add f2)
+
 end Gmx
